@@ -129,6 +129,10 @@ func checkWriterRun(r *concRun) (fails []schedFailure, nt map[string]bool, label
 		add("C09", "reading the primary: %v", err)
 	} else if d := m.diffStates(got, "primary after all writers finished vs. deltas folded in apply order"); d != "" {
 		add("C09", "%s", d)
+		// a committed transaction applies every change it buffered, and only those (C02); rows of
+		// finished inserts keep their values (C11)
+		add("C02", "%s", d)
+		add("C11", "%s", d)
 	}
 	if r.C.Count() != m.Count() {
 		add("C11", "Count()=%d, %d rows are live after all writers finished", r.C.Count(), m.Count())
@@ -186,6 +190,8 @@ func checkWriterRun(r *concRun) (fails []schedFailure, nt map[string]bool, label
 		labels = append(labels, "interleaved-blocks")
 	}
 	nt["C06"] = multi && interleaved
+	nt["C02"] = len(recs) >= 2
+	nt["C11"] = len(recs) >= 2
 	// C15: both pre-latch points on one block passed before either latched
 	pre := map[string]int{}
 	for _, e := range r.S.Trace {
@@ -246,6 +252,11 @@ func TestSchedWriters(t *testing.T) {
 		blocks := rapid.IntRange(1, 3).Draw(t, "blocks")
 		init := buildConcInit(blocks, 4)
 		cfg := concGenCfg{Tasks: tasks, MaxTxns: 2, Deletes: true, Inserts: rapid.Bool().Draw(t, "inserts"), Puts: true}
+		if rapid.IntRange(0, 3).Draw(t, "dense-layout") == 0 {
+			// full first block: inserts land right behind rows that tasks delete (allocator under in-flight deletes)
+			init = buildConcInitDense(4)
+			cfg.Inserts = true
+		}
 		p := genConcProgram(t, init, cfg)
 		r := startConcRun(p, rapid.SampledFrom([]int{1, 1024, 16385}).Draw(t, "capacity"))
 		defer r.Close()
